@@ -123,7 +123,7 @@ pub fn prog_tokens(p: &PushProgram, out: &mut Vec<String>) {
     }
 }
 
-fn progs_string(ps: &[PushProgram]) -> String {
+pub fn progs_string(ps: &[PushProgram]) -> String {
     let mut out = Vec::new();
     for p in ps { prog_tokens(p, &mut out); }
     out.join(" ")
@@ -382,7 +382,10 @@ pub const INTS: [i64; 20] = [
 ];
 pub fn floats() -> Vec<f64> {
     vec![f64::NAN, f64::INFINITY, f64::NEG_INFINITY, 0.0, -0.0, 1.0, -1.0, 0.5, 1e308, 5e-324, 9.223372036854775807e18,
-         -9.223372036854775808e18, 1e19, 3.7, -2.5, 2.0, f64::MAX, f64::MIN_POSITIVE, 4503599627370497.5, -1e-300]
+         -9.223372036854775808e18, 1e19, 3.7, -2.5, 2.0, f64::MAX, f64::MIN_POSITIVE, 4503599627370497.5, -1e-300,
+         // other NaNs: the negative quiet NaN (what x86 makes of inf - inf), one with a payload, a signalling one -
+         // all NaNs are one value to the interpreter (OrderedFloat), the model is told the canonical NaN
+         f64::from_bits(0xfff8_0000_0000_0000), f64::from_bits(0x7ff8_0000_0000_0001), f64::from_bits(0x7ff0_0000_0000_0001)]
 }
 
 // ---------------------------------------------------------------------------------------------
